@@ -229,6 +229,13 @@ def macro_history(rng, cfg):
         if rng.random() < 0.3:
             ops.append(("allow",))
         ops.append(rng.choice([("success",), ("success",), ("fail", k), ("cancel",)]))
+        if rng.random() < 0.3:
+            # more reports than probes: a straggler admitted before the trip (or a caller's finally-net) cancels as well, once or twice;
+            # then several callers ask at once - still one probe at a time
+            for _i in range(rng.randint(1, 2)):
+                ops.append(("cancel",))
+            for _i in range(rng.randint(2, 3)):
+                ops.append(("allow",))
         if rng.random() < 0.5:
             ops.append(("allow",))
         # now a few failures shortly after: stale history would open too early
